@@ -163,7 +163,7 @@ class Program:
             cmd = ['cargo', '+nightly', 'rustc', '--offline', '-p', crate, '--lib']
             if crate == 'mpd_protocol':
                 cmd += ['--features', 'async']
-            cmd += ['--', '-Zunpretty=mir', '-C', 'debug-assertions=off', '-C', 'overflow-checks=on']
+            cmd += ['--', '-Zunpretty=mir', '-C', 'debug-assertions=on', '-Zub-checks=no', '-C', 'overflow-checks=on']
             with open(out, 'w') as fo:
                 r = subprocess.run(cmd, cwd=WS, env=env, stdout=fo, stderr=subprocess.PIPE, text=True)
             if r.returncode != 0 or os.path.getsize(out) == 0:
